@@ -1311,6 +1311,11 @@ def rand_body(rng):
             data = text.encode(cs or "utf-8")
         except UnicodeEncodeError:
             data = text.encode("utf-8")
+        r = rng.random()
+        if r < 0.35:
+            # the body is NOT in the declared (or default) charset: a BOM, UTF-16 / UTF-32 text, an encoded surrogate
+            data = rng.choice([text.encode("utf-8-sig"), text.encode("utf-16"), text.encode("utf-32"),
+                               text.encode("utf-16-le"), text.encode("utf-32-be"), b'"\xed\xa0\x80"', b'{"k": "\xed\xb0\x80"}'])
         if rng.random() < 0.15:
             data = data[:-1] + b"!"
         return "application/json" + ("" if cs is None else "; charset=" + cs), data
